@@ -405,6 +405,11 @@ theorem rem_step (s s' : St) (e : Ev) (hs : step s e = some s') (he : ∀ id, e 
     split at hs
     · simp at hs; subst hs; exact Rem.refl s
     · simp at hs
+  | boff k b =>
+    simp only [step] at hs
+    split at hs
+    · simp at hs; subst hs; exact Rem.refl s
+    · simp at hs
   | probe j c =>
     simp only [step] at hs
     split at hs
